@@ -114,6 +114,11 @@ func fsmPairedExplore(c *Ctx, n, t int, maxStates int) (states, pairs int) {
 	t0 := time.Now().In(time.FixedZone("operator", 2*3600+1800))
 	a := &alphabetCtx{W: w, Round: round, T0: t0, N: n}
 	evs := a.dkgAlphabet(fakeKey("master", 0), fakeKey("master", 1), []byte(`{"commitments":["AA=="]}`))
+	// the same group key announced with another public polynomial: whether it is accepted depends on what
+	// the round remembers of earlier announcements, which must be the same before and after a dump
+	for p := 0; p < n; p++ {
+		evs = append(evs, a.ev("masterkey", p, "otherpoly", 4, EvMasterKey, mkReq(requests.DKGProposalMasterKeyConfirmationRequest{ParticipantId: p, MasterKey: fakeKey("master", 0), PubPolyBz: []byte(`{"commitments":["AQ=="]}`), CreatedAt: a.ts("valid")}), ""))
+	}
 	im := initMsg(w, round, n, t, t0, 0)
 	evs = append(evs, &exEvent{Label: "init(valid)", Kind: "init", Msg: im})
 	type typed struct {
